@@ -9,6 +9,8 @@ RECURSIVE Match(_, _)
 Match(p, a) ==
     CASE p.k = "g" -> {<<p.n, Strip(a)>>}
       [] p.k = "l" -> IF Strip(a).k = "l" THEN Match(p.e, Strip(a).e) ELSE {<<"!", "!">>}
+      [] p.k = "i" -> IF a.k = "i" /\ a.n = p.n /\ Len(a.a) = Len(p.a)          \* instantiation of a generic Kombination: [k |-> "i", n, a : type arguments]
+                      THEN UNION {Match(p.a[i], a.a[i]) : i \in 1..Len(p.a)} ELSE {<<"!", "!">>}
       [] OTHER -> IF Equal(p, a) THEN {} ELSE {<<"!", "!">>}
 Bindings(ps, as) == UNION {Match(ps[i], as[i]) : i \in 1..Len(ps)}
 Unifies(ps, as) ==
